@@ -195,16 +195,15 @@ impl EntryCommand {
 // A-dep(crc32), authenticity reading (DESIGN §4.4: "CRC-32 ... assumed collision-free on the compared pairs"):
 // the files C11 quantifies over are CRC-detectable corruptions of journals written by `apply`. Hence an entry whose
 // recomputed checksum equals the checksum field STORED IN THE FILE at its position carries the content that `apply`
-// wrote, and that content came out of EntryCommand::to_bytes — it is decodable. The lemma can only be instantiated
-// with the stored field (first hypothesis), so it says nothing before the loader has compared the two checksums.
+// wrote, and that content came out of EntryCommand::to_bytes — it is decodable. The conclusion is available only for
+// the stored field (second hypothesis), so it says nothing before the loader has compared the two checksums.
 #[verifier::external_body]
 pub proof fn axiom_crc_authentic(file: Seq<u8>, p: int, stored: u32, index: u64, term: u64, leader_id: u32, version: u32,
                                  flags: u64, ts: u64, user_id: u32, context: Seq<u8>, command: Seq<u8>)
-    requires
-        0 <= p && p + 48 <= file.len(),
-        le32(stored) == file.subrange(p + 44, p + 48),
     ensures
-        stored == crc32(crc_input(index, term, leader_id, version, flags, ts, user_id, context, command)) ==> decodable(command),
+        0 <= p && p + 48 <= file.len() && le32(stored) == file.subrange(p + 44, p + 48)
+            && stored == crc32(crc_input(index, term, leader_id, version, flags, ts, user_id, context, command))
+            ==> decodable(command),
 {}
 
 // ---- the journal format (spec) ---------------------------------------------------------------------------------------
@@ -293,34 +292,54 @@ pub open spec fn appended(f0: Seq<u8>, f1: Seq<u8>, n: u64) -> bool {
 }
 
 // ---- helper lemmas used by proof hints inside the extracted functions (proved here, nothing assumed) ------------------
+// They have NO preconditions: every fact is an implication, so a hint can never make Verus assume something the code
+// did not establish (a failed `requires` would be assumed afterwards and could mask a violation).
 pub proof fn lemma_sub_cat(s: Seq<u8>, a: int, b: int, c: int)
-    requires 0 <= a <= b <= c <= s.len(),
-    ensures s.subrange(a, b) + s.subrange(b, c) == s.subrange(a, c),
+    ensures 0 <= a <= b <= c <= s.len() ==> s.subrange(a, b) + s.subrange(b, c) == s.subrange(a, c),
 {
-    assert(s.subrange(a, b) + s.subrange(b, c) =~= s.subrange(a, c));
+    if 0 <= a <= b <= c <= s.len() {
+        assert(s.subrange(a, b) + s.subrange(b, c) =~= s.subrange(a, c));
+    }
+}
+pub proof fn lemma_empty_cat(x: Seq<u8>, s: Seq<u8>)
+    ensures x.len() == 0 ==> x + s == s && x == Seq::<u8>::empty(),
+{
+    if x.len() == 0 { assert(x + s =~= s); assert(x =~= Seq::<u8>::empty()); }
+}
+pub proof fn lemma_sub_full(s: Seq<u8>, n: int)
+    ensures n == s.len() ==> s.subrange(0, n) == s,
+{
+    if n == s.len() { assert(s.subrange(0, n) =~= s); }
+}
+// framing of a command built as (x ++ a ++ b ++ c) with x empty and a, b four bytes wide
+pub proof fn lemma_frame3(x: Seq<u8>, a: Seq<u8>, b: Seq<u8>, c: Seq<u8>)
+    ensures x.len() == 0 && a.len() == 4 && b.len() == 4 ==> (x + a + b + c).subrange(4, 8) == b && (x + a + b + c).len() == 8 + c.len(),
+{
+    if x.len() == 0 && a.len() == 4 && b.len() == 4 { assert((x + a + b + c).subrange(4, 8) =~= b); }
 }
 
 // field-by-field layout (what the loader reads) == `enc` (what to_bytes writes)
 pub proof fn lemma_entry_at(file: Seq<u8>, p: int, e: StateEntry)
-    requires entry_at(file, p, e),
     ensures
-        file.subrange(p, p + 52 + e.context@.len() + e.command@.len()) == enc(e),
-        enc(e).len() == 52 + e.context@.len() + e.command@.len(),
+        entry_at(file, p, e) ==> file.subrange(p, p + 52 + e.context@.len() + e.command@.len()) == enc(e)
+            && enc(e).len() == 52 + e.context@.len() + e.command@.len(),
 {
-    lemma_le_facts();
-    let cl = e.context@.len() as int;
-    let ml = e.command@.len() as int;
-    lemma_sub_cat(file, p, p + 8, p + 16);
-    lemma_sub_cat(file, p, p + 16, p + 20);
-    lemma_sub_cat(file, p, p + 20, p + 24);
-    lemma_sub_cat(file, p, p + 24, p + 32);
-    lemma_sub_cat(file, p, p + 32, p + 40);
-    lemma_sub_cat(file, p, p + 40, p + 44);
-    lemma_sub_cat(file, p, p + 44, p + 48);
-    lemma_sub_cat(file, p, p + 48, p + 52);
-    assert(enc_hdr(e) == file.subrange(p, p + 52));
-    lemma_sub_cat(file, p, p + 52, p + 52 + cl);
-    lemma_sub_cat(file, p, p + 52 + cl, p + 52 + cl + ml);
+    if entry_at(file, p, e) {
+        lemma_le_facts();
+        let cl = e.context@.len() as int;
+        let ml = e.command@.len() as int;
+        lemma_sub_cat(file, p, p + 8, p + 16);
+        lemma_sub_cat(file, p, p + 16, p + 20);
+        lemma_sub_cat(file, p, p + 20, p + 24);
+        lemma_sub_cat(file, p, p + 24, p + 32);
+        lemma_sub_cat(file, p, p + 32, p + 40);
+        lemma_sub_cat(file, p, p + 40, p + 44);
+        lemma_sub_cat(file, p, p + 44, p + 48);
+        lemma_sub_cat(file, p, p + 48, p + 52);
+        assert(enc_hdr(e) == file.subrange(p, p + 52));
+        lemma_sub_cat(file, p, p + 52, p + 52 + cl);
+        lemma_sub_cat(file, p, p + 52 + cl, p + 52 + cl + ml);
+    }
 }
 
 pub proof fn lemma_enc_all_push(es: Seq<StateEntry>, e: StateEntry)
@@ -331,31 +350,36 @@ pub proof fn lemma_enc_all_push(es: Seq<StateEntry>, e: StateEntry)
 }
 
 pub proof fn lemma_enc_len(e: StateEntry)
-    requires entry_wf(e),
-    ensures enc(e).len() == 52 + e.context@.len() + e.command@.len(), enc(e).len() >= 60,
+    ensures enc(e).len() == 52 + e.context@.len() + e.command@.len(), entry_wf(e) ==> enc(e).len() >= 60,
 {
     lemma_le_facts();
 }
 
 pub proof fn lemma_journal_size(es: Seq<StateEntry>)
-    requires all_wf(es),
-    ensures enc_all(es).len() >= 60 * es.len(),
+    ensures all_wf(es) ==> enc_all(es).len() >= 60 * es.len(),
     decreases es.len(),
 {
-    if es.len() > 0 {
+    if all_wf(es) && es.len() > 0 {
         assert(forall|i: int| 0 <= i < es.drop_last().len() ==> es.drop_last()[i] == es[i]);
         lemma_journal_size(es.drop_last());
         lemma_enc_len(es.last());
     }
 }
 
+// appending one well-formed, checksum-consistent entry with index n to a valid journal of n entries
 pub proof fn lemma_jcount_push(file: Seq<u8>, n: nat, e: StateEntry)
-    requires jcount(file, n), e.index == n, e.checksum == crc_of(e), entry_wf(e),
-    ensures jcount(file + enc(e), n + 1), appended(file, file + enc(e), e.index), 60 * n <= file.len(),
+    ensures
+        jcount(file, n) && e.index == n && e.checksum == crc_of(e) && entry_wf(e)
+            ==> jcount(file + enc(e), n + 1) && appended(file, file + enc(e), e.index),
+        jcount(file, n) ==> 60 * n <= file.len(),
 {
-    let es = choose|es: Seq<StateEntry>| #[trigger] journal_of(file, es) && es.len() == n;
-    lemma_enc_all_push(es, e);
-    lemma_journal_size(es);
-    let es2 = es.push(e);
-    assert(journal_of(file + enc(e), es2));
+    if jcount(file, n) {
+        let es = choose|es: Seq<StateEntry>| #[trigger] journal_of(file, es) && es.len() == n;
+        lemma_journal_size(es);
+        if e.index == n && e.checksum == crc_of(e) && entry_wf(e) {
+            lemma_enc_all_push(es, e);
+            let es2 = es.push(e);
+            assert(journal_of(file + enc(e), es2));
+        }
+    }
 }
